@@ -62,9 +62,45 @@ def loss_case(rng, dt, gdt):
     return {'kind': 'loss', 'op': name + '/' + red, 'dt': dt, 'gdt': gdt, 'lines': lines, 'nout': 1, 'zero_d': red != 'none'}
 
 
+def bnhist_case(rng, dt):
+    """a layer history: training / eval forwards of one BatchNorm layer of dtype `dt`; every output and the
+    running statistics must keep that dtype (checked on the implementation; the model side is the dtype rule)"""
+    evs = [rng.pick(['train', 'eval', 'fwd', 'fwd']) for _ in range(rng.randint(3, 8))] + ['train', 'fwd', 'eval', 'fwd']
+    return {'kind': 'bnhist', 'op': 'BatchNorm', 'dt': dt, 'gdt': dt, 'nout': 1, 'zero_d': False, 'evs': evs,
+            'C': rng.randint(1, 3), 'rank': rng.pick([2, 3, 4]), 'affine': rng.chance(.6), 'mo': rng.pick([None, 0.1, 0.5]),
+            'seed': rng.randrange(2 ** 31), 'lines': ['t modes']}
+
+
+def _bnhist(c):
+    sg = common.impl()
+    from synapgrad import nn
+    dt = tprog.DT[c['dt']]
+    rs = np.random.RandomState(c['seed'])
+    cls = nn.BatchNorm1d if c['rank'] < 4 else nn.BatchNorm2d
+    bn = cls(c['C'], momentum=c['mo'], affine=c['affine'], dtype=dt)
+    rest = {2: (), 3: (3,), 4: (2, 2)}[c['rank']]
+    for k, e in enumerate(c['evs']):
+        if e == 'train': bn.train()
+        elif e == 'eval': bn.eval()
+        else:
+            x = sg.Tensor(rs.rand(*((3, c['C']) + rest)).astype(dt), requires_grad=True)
+            y = bn(x)
+            if y.dtype != dt: return f'forward {k} ({"train" if bn.training else "eval"}) of a {c["dt"]} BatchNorm returned {y.dtype}'
+            for name in ('running_mean', 'running_var'):
+                if getattr(bn, name).dtype != dt: return f'{name} became {getattr(bn, name).dtype} after forward {k} of a {c["dt"]} layer'
+            y.backward(sg.Tensor(np.ones(y.shape, dtype=dt)))
+            if x.grad.dtype != dt or x.grad.shape != x.shape: return f'input gradient is {x.grad.dtype}{x.grad.shape}'
+            for p_ in bn.parameters():
+                if p_._grad is not None and (p_._grad.dtype != p_.dtype or p_._grad.shape != p_.shape): return 'parameter gradient dtype/shape changed'
+    return None
+
+
 def cases(rng, tier):
     out = []
     reps = 2 if tier == 'quick' else 40
+    for dt in ('f32', 'f64'):
+        for _ in range(6 * reps):
+            out.append(bnhist_case(rng, dt))
     for dt in ('f32', 'f64'):
         for gdt in ('f32', 'f64'):
             for op in gen_ops.OPS_BASIC + gen_ops.OPS_NN:
@@ -88,6 +124,9 @@ def impl(c):
 
 
 def compare(c, mo, io):
+    if c['kind'] == 'bnhist':
+        f = common.outcome(lambda: _bnhist(c))
+        return [('BatchNorm layer history', 'dtype kept', str(f))] if f else []
     diffs = []
     for l, m, i in zip(c['lines'], mo, io):
         if l.startswith(('t dtype', 't gdtype')) or l.startswith(('t op', 't sop', 't loss', 't leaf')):
@@ -136,9 +175,12 @@ def distribution(cases):
 
 def oracle(c):
     """dtype / shape inspection on the implementation alone"""
-    io = tprog.run_program(c['lines'])
     key = {'kind': c['kind'], 'op': c['op']}
     cc = {k: v for k, v in c.items() if k != 'desc'}
+    if c['kind'] == 'bnhist':
+        f = common.outcome(lambda: _bnhist(c))
+        return {'key': dict(key, cls='layer-dtype'), 'case': cc, 'what': str(f)} if f else None
+    io = tprog.run_program(c['lines'])
     for l, o in zip(c['lines'], io):
         if l.startswith('t dtype') and o in ('f32', 'f64') and o != c['dt']:
             return {'key': dict(key, cls='result-dtype'), 'case': cc, 'what': f"{c['op']} on {c['dt']} operands returned {o} ({l})"}
